@@ -257,6 +257,11 @@ func sanitize(s string) string {
 
 // violation records a failed obligation with a model of the inputs.
 func (p *Path) violation(label string, model map[string]uint64, detail string) {
+	p.violations = append(p.violations, Violation{Label: label, Draws: p.modelDraws(model), Prefix: append([]int{}, p.taken...), Detail: detail})
+}
+
+// modelDraws instantiates the draws of this path with the values of a model.
+func (p *Path) modelDraws(model map[string]uint64) []*Draw {
 	var ds []*Draw
 	for _, d := range p.draws {
 		c := *d
@@ -271,7 +276,7 @@ func (p *Path) violation(label string, model map[string]uint64, detail string) {
 		}
 		ds = append(ds, &c)
 	}
-	p.violations = append(p.violations, Violation{Label: label, Draws: ds, Prefix: append([]int{}, p.taken...), Detail: detail})
+	return ds
 }
 
 // assert handles verifrt.Assert.
